@@ -162,7 +162,7 @@ def build_case(ctx, kind, idx, kw, thorough=False):
         if kind == "single":
             n_max = 12 if not thorough else 16
             model, lik, tx, ty, desc = G.build_exact_gp(rng, n_max=n_max, **kw)
-            mode = ("random", "same-n", "random", "train-inputs")[idx % 4]
+            mode = ("random", "same-n", "random", "train-inputs", "random", "same-n", "random", "train-inputs-alias")[idx % 8]
         else:
             model, lik, tx, ty, desc = G.build_multitask_gp(rng, n_max=5 if not thorough else 6)
             mode = ("random", "same-n", "random")[idx % 3]
@@ -171,8 +171,14 @@ def build_case(ctx, kind, idx, kw, thorough=False):
             test_x = G.random_test_x(rng, desc, s_max=6 if kind == "single" else 3)
         elif mode == "same-n":
             test_x = G.random_test_x(rng, desc, s=desc["n"])
+        elif mode == "train-inputs-alias" and desc["batch"] != "broadcast":
+            test_x = tx                 # the very same tensor object as the training inputs (x2 is x1)
         else:
             test_x = tx.clone() if desc["batch"] != "broadcast" else tx.expand(desc["b"], *tx.shape).clone()
+        if kind == "single" and desc["batch"] == "broadcast" and mode == "random" and idx % 3 == 0:
+            # three batch dimensions on the test side only (train inputs unbatched)
+            test_x = G._rand_tensor(rng, (2, 1, 2, test_x.shape[-2], desc["d"]), -1.5, 1.5)
+            mode = "random-3-batch-dims"
     desc["xstar"] = mode
     s = test_x.shape[-2]
     desc["s"] = s
@@ -180,6 +186,9 @@ def build_case(ctx, kind, idx, kw, thorough=False):
     if desc["lik"].startswith("fixed"):
         bshape = test_x.shape[:-2] if desc["batch"] in ("data", "broadcast") else ()
         test_noise = G._rand_tensor(rng, (*bshape, s), 0.05, 0.6)
+        if idx % 5 == 4:
+            test_noise = test_noise * 0.0      # legal: call-time noise exactly 0.0 (truthiness bugs hide here)
+            desc["call_noise"] = "zeros"
     return model, lik, tx, ty, desc, test_x, test_noise
 
 
@@ -191,20 +200,25 @@ def dense_pieces(model, lik, tx, ty, desc, test_x, test_noise):
     mj, J, B = G.dense_prior(model, tx, test_x)
     Strain = G.spec_noise(lik, desc, n, train=True)
     Stest = G.spec_noise(lik, desc, s, call_noise=test_noise, train=False)
+    # documented behaviour without `noise=`: FixedNoise adds its stored noise only when the number of points matches the
+    # training set, otherwise nothing ("treated as a no-op"); the learned additional noise is added in every case
+    Stest0 = G.spec_noise(lik, desc, s, call_noise=None, train=(s == n))
+    if Stest0 is None:
+        Stest0 = torch.zeros(Sx, Sx, dtype=torch.float64)
     yflat = ty.reshape(*ty.shape[:ty.dim() - (2 if t > 1 else 1)], N)
     try:
         dK = G.kernel_eval_delta(model, tx, test_x, J, N)
     except Exception:
         dK = torch.zeros(J.shape[:-2], dtype=torch.float64)
     B = torch.broadcast_shapes(B, Strain.shape[:-2], yflat.shape[:-1],
-                               Stest.shape[:-2] if Stest is not None else ())
+                               Stest.shape[:-2] if Stest is not None else (), Stest0.shape[:-2])
     nb = 1
     for k in B:
         nb *= k
     ex = lambda a, tail: a.expand(*B, *a.shape[-tail:]).reshape(nb, *a.shape[-tail:])
     out = {"B": tuple(B), "nb": nb, "N": N, "S": Sx,
            "J": _np(ex(J, 2)), "mj": _np(ex(mj, 1)), "Strain": _np(ex(Strain, 2)), "y": _np(ex(yflat, 1)),
-           "Stest": _np(ex(Stest, 2)) if Stest is not None else None,
+           "Stest": _np(ex(Stest, 2)) if Stest is not None else None, "Stest0": _np(ex(Stest0, 2)),
            "dK": _np(dK.expand(*B).reshape(nb)) if B else _np(dK.reshape(1))}
     return out
 
@@ -285,6 +299,26 @@ def run_cell(model, lik, desc, test_x, test_noise, cell, P, skip_noisy=False, re
             obs["ncov"] = bexp(pl.covariance_matrix, 2)
             nm = pl.mean
             obs["nmean"] = bexp(nm.reshape(*nm.shape[:nm.dim() - (2 if t > 1 else 1)], Sx), 1)
+            # the other public entry points / argument forms: (name, covariance, expects call-time noise?)
+            ent = []
+            kwn = {"noise": test_noise} if test_noise is not None else {}
+
+            def entry(name, fn, with_noise):
+                try:
+                    ent.append((name, bexp(fn().covariance_matrix, 2), with_noise))
+                except Exception as e:      # one entry point raising must not hide the others
+                    ent.append((name, f"{type(e).__name__}: {str(e)[:160]}", with_noise))
+            entry("marginal(noise=)" if kwn else "marginal()", lambda: lik.marginal(p, **kwn), bool(kwn))
+            entry("call(x*, noise=)" if kwn else "call(x*)", lambda: lik(p, test_x, **kwn), bool(kwn))
+            # (FixedNoise without learned noise, no `noise=`, n* != n is the documented warning + no-op; combined with
+            #  skip_posterior_variances the sum of two ZeroLinearOperators loses its shape and `.covariance_matrix`
+            #  raises a TypeError inside linear_operator — a degenerate corner that is left out, see docs/C01.md)
+            degenerate = cell["skip"] and desc["lik"] == "fixed" and Sx != N
+            if kwn and not degenerate:
+                entry("call()", lambda: lik(p), False)
+                entry("call(x*)", lambda: lik(p, test_x), False)
+                entry("marginal()", lambda: lik.marginal(p), False)
+            obs["entries"] = ent
         ps = model.prediction_strategy
         mc = ps.mean_cache
         try:
@@ -312,7 +346,8 @@ def run_cell(model, lik, desc, test_x, test_noise, cell, P, skip_noisy=False, re
 
 # ------------------------------------------------------------------ data / parameter updates on one model object
 
-OPS = ("targets", "inputs+targets", "resize", "hypers")
+OPS = ("targets", "inputs+targets", "resize", "hypers", "load_state_dict", "load_state_dict_partial",
+       "other-test-points", "switch-cell")
 
 
 def apply_history(ctx, model, lik, tx, ty, desc, test_x, cell, op, kind, idx):
@@ -322,14 +357,28 @@ def apply_history(ctx, model, lik, tx, ty, desc, test_x, cell, op, kind, idx):
       inputs+targets  set_train_data(new_x, new_y)                       (same n)
       resize          set_train_data(new_x, new_y, strict=False), n' != n (FixedNoise: noise vector replaced too)
       hypers          train(); every raw parameter moved (as an optimizer step would); eval()
+      load_state_dict          model.load_state_dict(state dict with every parameter moved) in eval mode, no train()
+      load_state_dict_partial  model.load_state_dict({kernel parameters only}, strict=False) in eval mode
+      other-test-points        the first prediction is made at DIFFERENT test inputs (other n*), data/parameters unchanged
+      switch-cell              the first prediction is made under a DIFFERENT settings cell (same solver), nothing reset
     """
     import torch
     rng = ctx.rng(f"hist:{kind}:{idx}:{op}")
     G.reset_caches(model)
-    with warnings.catch_warnings(), G.enter_cell(cell):
+    first_x, first_cell = test_x, cell
+    if op == "other-test-points":
+        s0 = test_x.shape[-2] + (1 if rng.random() < 0.5 or test_x.shape[-2] == 1 else -1)
+        if desc["batch"] == "model" and s0 == desc["b"]:
+            s0 += 1
+        first_x = G._rand_tensor(rng, (*test_x.shape[:-2], s0, test_x.shape[-1]), -1.5, 1.5)
+    if op == "switch-cell":
+        first_cell = dict(rng.choice([c for c in G.all_cells() if c["cg"] == cell["cg"] and c != cell]))
+    with warnings.catch_warnings(), G.enter_cell(first_cell):
         warnings.simplefilter("ignore")
-        p = model(test_x)
+        p = model(first_x)
         p.mean, p.covariance_matrix, p.variance  # fill every cache the cell uses
+        if first_cell["fast"] and not first_cell["skip"]:
+            model.prediction_strategy.covar_cache
     desc = dict(desc)
     n, t = desc["n"], desc["tasks"]
     if op == "targets":
@@ -360,6 +409,20 @@ def apply_history(ctx, model, lik, tx, ty, desc, test_x, cell, op, kind, idx):
                 prm.add_(G._rand_tensor(rng, tuple(prm.shape), -0.3, 0.3))
         model.eval()
         lik.eval()
+    elif op in ("load_state_dict", "load_state_dict_partial"):
+        names = [k for k, _ in model.named_parameters()]
+        if op == "load_state_dict_partial":
+            names = [k for k in names if k.startswith("covar_module")]
+        sd = model.state_dict()
+        moved = {k: sd[k].detach().clone() + G._rand_tensor(rng, tuple(sd[k].shape), -0.3, 0.3) for k in names}
+        if op == "load_state_dict":
+            full = {k: v.detach().clone() for k, v in sd.items()}
+            full.update(moved)
+            model.load_state_dict(full)                       # eval mode, no .train() in between
+        else:
+            model.load_state_dict(moved, strict=False)
+    elif op in ("other-test-points", "switch-cell"):
+        pass
     else:
         raise ValueError(op)
     return tx, ty, desc
@@ -464,7 +527,7 @@ def correspondence(ctx, extra=False):
     import torch
     torch.set_num_threads(2)
     thorough = ctx.tier == "thorough" or extra
-    n_single, n_multi, ncell = (60, 12, 10) if not thorough else (240, 36, 64)
+    n_single, n_multi, ncell = (60, 12, 10) if not thorough else (220, 32, 64)
     workers = 4 if not thorough else 10
     if os.environ.get("VERIF_C01_CASES"):
         n_single, n_multi = [int(v) for v in os.environ["VERIF_C01_CASES"].split(",")]
@@ -507,7 +570,7 @@ def correspondence(ctx, extra=False):
         ops = list(OPS) if thorough else [OPS[(idx + (0 if kind == "single" else 1)) % len(OPS)]]
         done = []
         for op in ops:
-            for cell in (G.covering_cells(crng, 2 if thorough else 1)):
+            for cell in G.covering_cells(crng, 1):
                 done.append({"op": op, "cell": cell})
                 try:
                     tx, ty, desc = apply_history(ctx, model, lik, tx, ty, desc, test_x, cell, op, kind, f"{idx}:{len(done)}")
@@ -742,6 +805,17 @@ def _compare(ctx, cs, b, R, cell, obs, pending):
         check(f"marginal-noise:{lk}", "likelihood(model(x*)).covariance - model(x*).covariance vs the noise S*",
               added, R.St, 64 * EPS * (_absmax(obs["cov"][b]) + _absmax(R.St)) + 1e-13)
         check(f"marginal-mean:{lk}", "likelihood(model(x*)).mean vs model(x*).mean", obs["nmean"][b], obs["mean"][b], 0.0)
+        for ename, ecov, with_noise in obs.get("entries", []):
+            if isinstance(ecov, str):
+                if b == 0:
+                    ctx.fail(f"exception:marginal-noise:{lk}:{ename}", f"likelihood.{ename} on model(x*) raised {ecov} on {where}",
+                             replay({"observable": f"likelihood.{ename}"}))
+                continue
+            exp_S = R.St if with_noise or desc["lik"].split("[")[0] not in ("fixed", "fixed+learned") else P["Stest0"][b]
+            check(f"marginal-noise:{lk}:{ename}",
+                  f"likelihood.{ename}: covariance added to model(x*) vs the documented noise "
+                  f"({'call-time noise' if with_noise else 'no call-time noise'}, n*{'==' if Sx == N else '!='}n)",
+                  ecov[b] - obs["cov"][b], exp_S, 64 * EPS * (_absmax(obs["cov"][b]) + _absmax(exp_S)) + 1e-13)
         if not cell["skip"]:
             check(f"noisy-covar:{kind}:{path}", "likelihood(model(x*)).covariance_matrix vs K** + S* - K*x A^-1 Kx*",
                   obs["ncov"][b], R.ncov, R.tol_cov + R.rel * _absmax(R.St), prim_cov)
